@@ -190,7 +190,7 @@ class DSDLDefinition(ReadableDSDLFile):
         self._file_path = Path(file_path).resolve()
         del file_path
 
-        if not self._file_path.exists():
+        if not self._file_path.is_file():  # E.g., a directory whose name looks like that of a definition file.
             raise InvalidDefinitionError(
                 "Attempt to construct ReadableDSDLFile object for file that doesn't exist.", self._file_path
             )
